@@ -141,8 +141,13 @@ def run(chk):
                         if n.get('k') == 'ref' and n.get('g') and n['n'] == 'imb_errno':
                             readers.add((f.name, ev['loc']))
     for fn, loc in sorted(readers):
-        g3.check(fn in ('imb_get_errno', 'imb_set_errno'), 'imb_errno@' + fn, loc,
-                 'process-wide imb_errno consulted in %s: result would depend on other managers/threads' % fn)
+        if fn == 'imb_set_errno':
+            g3.ok('imb_errno@' + fn, 'writer compares before storing')
+            continue
+        # imb_get_errno(NULL) may legitimately return the mirror; returning it for a non-NULL manager makes the
+        # answer depend on other managers
+        g3.bad('imb_errno@' + fn, loc,
+               'process-wide imb_errno consulted in %s: the per-manager answer depends on what other managers/threads did' % fn)
     # ---- G4
     shared.rule_errno_target(chk, P, 'G4')
     # ---- G5
